@@ -978,6 +978,164 @@ theorem newMUX_spec {s : St} {inp : List Bool} (hwf : WF s inp) {t f : List Nat}
   · simp only [if_true]
     rw [show (fun p : Bool × Bool => p.1) = Prod.fst from rfl, List.map_fst_zip (by omega)]
 
+/-! ### Hamming distance (Yao target: ripple adders) -/
+
+/-- Sum of the values of a list of buses. -/
+def sumVal (s : St) (inp : List Bool) (L : List (List Nat)) : Nat :=
+  (L.map fun b => toNat (busVal s inp b)).sum
+
+/-- Buses exist, are non-empty and their widths do not increase along the list. -/
+structure GoodL (s : St) (L : List (List Nat)) : Prop where
+  bnd : ∀ b ∈ L, Bnd s b ∧ 0 < b.length
+  srt : L.Pairwise (fun a b => b.length ≤ a.length)
+
+theorem GoodL.mono {s s' : St} {inp : List Bool} {L : List (List Nat)} (e : Ext s s' inp) (h : GoodL s L) :
+    GoodL s' L := ⟨fun b hb => ⟨(h.bnd b hb).1.mono e, (h.bnd b hb).2⟩, h.srt⟩
+
+theorem sumVal_ext {s s' : St} {inp : List Bool} {L : List (List Nat)} (e : Ext s s' inp) (h : GoodL s L) :
+    sumVal s' inp L = sumVal s inp L := by
+  simp only [sumVal]
+  congr 1
+  apply List.map_congr_left
+  intro b hb
+  rw [busVal_ext e (h.bnd b hb).1]
+
+theorem hammingRound_spec {inp : List Bool} : ∀ (L : List (List Nat)) {s : St} (_ : WF s inp), GoodL s L →
+    Spec inp s (hammingRound false L) (fun L' s' => GoodL s' L' ∧ sumVal s' inp L' = sumVal s inp L ∧
+      L'.length = (L.length + 1) / 2 ∧ ∀ m, (∀ b ∈ L, b.length ≤ m) → ∀ b' ∈ L', b'.length ≤ m + 1)
+  | [], s, hwf, hg => by
+    simp only [hammingRound]
+    exact Spec.pure hwf ⟨hg, rfl, rfl, fun m _ b' hb' => by cases hb'⟩
+  | [a], s, hwf, hg => by
+    simp only [hammingRound]
+    exact Spec.pure hwf ⟨hg, rfl, by simp, fun m hm b' hb' => Nat.le_succ_of_le (hm b' hb')⟩
+  | a :: b :: rest, s, hwf, hg => by
+    simp only [hammingRound, newAdder, Bool.false_eq_true, if_false]
+    have ha := hg.bnd a (by simp)
+    have hb := hg.bnd b (by simp)
+    have hba : b.length ≤ a.length := by
+      have := hg.srt; simp only [List.pairwise_cons] at this; exact this.1 b (by simp)
+    have hrest : GoodL s rest := ⟨fun c hc => hg.bnd c (by simp [hc]), by
+      have := hg.srt; simp only [List.pairwise_cons] at this; exact this.2.2⟩
+    have hrestle : ∀ c ∈ rest, c.length ≤ a.length := by
+      intro c hc
+      have := hg.srt; simp only [List.pairwise_cons] at this; exact this.1 c (by simp [hc])
+    refine Spec.bind (rippleAdder_spec hwf (a.length + 1) ha.1 hb.1 (by omega) (by omega)) ?_
+    intro sm s1 e1 ⟨hsb, hsl, hsv⟩
+    refine Spec.bind (hammingRound_spec rest e1.wf (hrest.mono e1)) ?_
+    intro r s2 e2 ⟨hr, hrv, hrl, hrm⟩
+    have hA := toNat_lt (busVal s inp a)
+    have hB := toNat_lt (busVal s inp b)
+    simp only [busVal_length] at hA hB
+    have hpb : 2 ^ b.length ≤ 2 ^ a.length := Nat.pow_le_pow_right (by omega) hba
+    have hps : 2 ^ (a.length + 1) = 2 * 2 ^ a.length := by rw [Nat.pow_succ]; omega
+    rw [Nat.mod_eq_of_lt (by omega)] at hsv
+    refine Spec.pure e2.wf ⟨⟨?_, ?_⟩, ?_, ?_, ?_⟩
+    · intro c hc
+      rcases List.mem_cons.mp hc with rfl | hc
+      · exact ⟨hsb.mono e2, by omega⟩
+      · exact hr.bnd c hc
+    · simp only [List.pairwise_cons]
+      refine ⟨?_, hr.srt⟩
+      intro c hc
+      have := hrm a.length hrestle c hc
+      omega
+    · simp only [sumVal, List.map_cons, List.sum_cons] at hrv ⊢
+      rw [busVal_ext e2 hsb, hsv]
+      have h1 := sumVal_ext e1 hrest
+      simp only [sumVal] at h1
+      rw [hrv, h1]; omega
+    · simp only [List.length_cons, hrl]; omega
+    · intro m hm c hc
+      rcases List.mem_cons.mp hc with rfl | hc
+      · have := hm a (by simp); omega
+      · exact hrm m (fun d hd => hm d (by simp [hd])) c hc
+
+theorem hammingTree_spec {inp : List Bool} : ∀ (fuel : Nat) (L : List (List Nat)) {s : St} (_ : WF s inp),
+    GoodL s L → L.length ≤ fuel + 2 → 2 ≤ L.length →
+    Spec inp s (hammingTree false fuel L) (fun L' s' => GoodL s' L' ∧ sumVal s' inp L' = sumVal s inp L ∧
+      L'.length = 2)
+  | 0, L, s, hwf, hg, h1, h2 => by
+    simp only [hammingTree]; exact Spec.pure hwf ⟨hg, rfl, by omega⟩
+  | fuel + 1, L, s, hwf, hg, h1, h2 => by
+    simp only [hammingTree]
+    split
+    · refine Spec.bind (hammingRound_spec L hwf hg) ?_
+      intro L1 s1 e1 ⟨hg1, hv1, hl1, _⟩
+      refine (hammingTree_spec fuel L1 e1.wf hg1 (by omega) (by omega)).mono ?_
+      intro L2 s2 _ ⟨hg2, hv2, hl2⟩
+      exact ⟨hg2, by rw [hv2, hv1], hl2⟩
+    · exact Spec.pure hwf ⟨hg, rfl, by omega⟩
+
+/-- Number of positions in which two bit lists differ. -/
+def popDiff (l : List (Bool × Bool)) : Nat := (l.map fun p => (p.1 != p.2).toNat).sum
+
+theorem xorBits_spec {inp : List Bool} (l : List (Nat × Nat)) :
+    ∀ {s : St} (_ : WF s inp), BndP s l →
+    Spec inp s (xorBits l) (fun L s' => GoodL s' L ∧ L.length = l.length ∧
+      (∀ b ∈ L, b.length = 1) ∧ sumVal s' inp L = popDiff (pairVals s inp l)) := by
+  induction l with
+  | nil =>
+    intro s hwf _
+    exact Spec.pure hwf ⟨GoodL.mk (fun b hb => nomatch hb) List.Pairwise.nil, rfl, (fun b hb => nomatch hb), rfl⟩
+  | cons p rest ih =>
+    intro s hwf hl
+    obtain ⟨a, b⟩ := p
+    simp only [xorBits]
+    refine Spec.bind (gateF_spec .xor s a b hwf hl.head.1 hl.head.2) ?_
+    intro w s1 e1 hw
+    refine Spec.bind (ih e1.wf (hl.tail.mono e1)) ?_
+    intro r s2 e2 ⟨hg, hrl, hr1, hrv⟩
+    refine Spec.pure e2.wf ⟨⟨?_, ?_⟩, by simp [hrl], ?_, ?_⟩
+    · intro c hc
+      rcases List.mem_cons.mp hc with rfl | hc
+      · exact ⟨Bnd.cons (hw.mono e2).1 (Bnd.nil _), by simp⟩
+      · exact hg.bnd c hc
+    · simp only [List.pairwise_cons]
+      exact ⟨fun c hc => by rw [hr1 c hc]; simp, hg.srt⟩
+    · intro c hc
+      rcases List.mem_cons.mp hc with rfl | hc
+      · rfl
+      · exact hr1 c hc
+    · simp only [sumVal, List.map_cons, List.sum_cons, busVal_cons, busVal_nil, toNat_cons, toNat_nil,
+        (hw.mono e2).2, eval_xor] at hrv ⊢
+      rw [hrv, pairVals_ext e1 hl.tail]
+      simp [popDiff]
+
+/-- `Hamming` (Yao target), operands at least 2 bits wide: the result is the
+number of differing bit positions modulo `2^nz`. -/
+theorem hamming_spec {s : St} {inp : List Bool} (hwf : WF s inp) {x y : List Nat} (nz : Nat)
+    (hx : Bnd s x) (hy : Bnd s y) (hne : 2 ≤ max x.length y.length) (hnz : 0 < nz) :
+    Spec inp s (hamming false x y nz) (fun z s' => Bnd s' z ∧ z.length = nz ∧
+      toNat (busVal s' inp z) = popDiff ((padTo (busVal s inp x) (max x.length y.length)).zip
+        (padTo (busVal s inp y) (max x.length y.length))) % 2 ^ nz) := by
+  unfold hamming
+  refine Spec.bind (zeroPad_spec hwf hx hy) ?_
+  intro p s1 e1 ⟨hp1, hp2, hv1, hv2⟩
+  have hlen1 : p.1.length = max x.length y.length := by
+    have := congrArg List.length hv1; simp at this; omega
+  have hlen2 : p.2.length = max x.length y.length := by
+    have := congrArg List.length hv2; simp at this; omega
+  refine Spec.bind (xorBits_spec _ e1.wf (BndP.zip hp1 hp2)) ?_
+  intro arr s2 e2 ⟨hg, hal, _, hav⟩
+  have hal2 : 2 ≤ arr.length := by rw [hal]; simp [hlen1, hlen2]; omega
+  refine Spec.bind (hammingTree_spec arr.length arr e2.wf hg (by omega) hal2) ?_
+  intro L s3 e3 ⟨hg3, hv3, hl3⟩
+  obtain ⟨a0, a1, rfl⟩ : ∃ a0 a1, L = [a0, a1] := by
+    rcases L with _ | ⟨a0, _ | ⟨a1, _ | _⟩⟩ <;> simp at hl3
+    exact ⟨a0, a1, rfl⟩
+  simp only [List.getD_cons_zero, List.getD_cons_succ, newAdder, Bool.false_eq_true, if_false]
+  have h0 := hg3.bnd a0 (by simp)
+  have h1 := hg3.bnd a1 (by simp)
+  refine (rippleAdder_spec e3.wf nz h0.1 h1.1 (by omega) hnz).mono ?_
+  intro z s4 _ ⟨hzb, hzl, hzv⟩
+  refine ⟨hzb, hzl, ?_⟩
+  rw [hzv]
+  simp only [sumVal, List.map_cons, List.map_nil, List.sum_cons, List.sum_nil, Nat.add_zero] at hv3
+  rw [hv3]
+  simp only [sumVal] at hav
+  rw [hav, pairVals_zip, hv1, hv2]
+
 /-! ### the harness wrapper: inputs, prologue, `ret` -/
 
 theorem emptySt_wf {nIn : Nat} {inp : List Bool} (hl : inp.length = nIn) (hp : 0 < nIn) :
@@ -985,7 +1143,8 @@ theorem emptySt_wf {nIn : Nat} {inp : List Bool} (hl : inp.length = nIn) (hp : 0
   { len := hl, pos := hp,
     inv0 := fun _ h => by simp at h,
     zero := fun _ h => by simp at h,
-    one := fun _ h => by simp at h }
+    one := fun _ h => by simp at h,
+    sl := fun k h => by simp at h }
 
 theorem initSt_ext {nIn : Nat} {inp : List Bool} (hl : inp.length = nIn) (hp : 0 < nIn) (pro : Bool) :
     Ext ({ nIn := nIn } : St) (initSt nIn pro) inp := by
@@ -1054,6 +1213,26 @@ theorem evalBuilder_spec {b : List Nat → List Nat → BM (List Nat)} {x y : Li
   simp only [evalBuilder, runBuilder]
   show R (busVal _ _ _)
   rw [hov]; exact hR
+
+/-- The final state of the harness circuit is well formed (so the bridge
+`plainEval_eq_val` applies to it). -/
+theorem runBuilder_wf {b : List Nat → List Nat → BM (List Nat)} {x y : List Bool}
+    (hb : ∀ (s : St) (inp : List Bool) (xw yw : List Nat), WF s inp → Bnd s xw → Bnd s yw →
+      busVal s inp xw = x → busVal s inp yw = y →
+      Spec inp s (b xw yw) (fun z s' => Bnd s' z))
+    (pro : Bool) (hpos : 0 < x.length + y.length) :
+    WF (runBuilder b pro x.length y.length).1 (x ++ y) := by
+  have hl : (x ++ y).length = x.length + y.length := by simp
+  have e0 := initSt_ext hl hpos pro
+  have hxw := inputWires_bnd e0 0 x.length (by simp)
+  have hyw := inputWires_bnd e0 x.length y.length (by simp)
+  have hxv : busVal (initSt (x.length + y.length) pro) (x ++ y) (inputWires 0 x.length) = x := by
+    rw [inputWires_val _ _ _ _ (by simp)]; simp
+  have hyv : busVal (initSt (x.length + y.length) pro) (x ++ y) (inputWires x.length y.length) = y := by
+    rw [inputWires_val _ _ _ _ (by simp)]; simp
+  obtain ⟨e1, hz⟩ := hb _ _ _ _ e0.wf hxw hyw hxv hyv
+  obtain ⟨e2, _, _⟩ := retWires_spec _ e1.wf hz
+  exact e2.wf
 
 theorem evalBuilder3_spec {b : List Nat → List Nat → List Nat → BM (List Nat)} {x y w : List Bool}
     {R : List Bool → Prop}
